@@ -68,7 +68,10 @@ def parseIn (e : String) : Option InRef :=
 
 def parseOut (e : String) : Option Out :=
   match e.splitOn ":" with
-  | [addr, amt, fr] => match amt.toNat?, fr.toInt? with
+  | [addr, amt, fr] =>
+    -- `x<hex>`: the amount spelled byte by byte (leading zero bytes, zero as 0x00): the code reads amounts numerically
+    if amt.startsWith "x" then (fr.toInt?).map (fun f => ⟨addr, hexVal (amt.drop 1).toString, f⟩)
+    else match amt.toNat?, fr.toInt? with
     | some a, some f => some ⟨addr, a, f⟩
     | _, _ => none
   | _ => none
@@ -364,6 +367,24 @@ def step (d : DS) (line : String) : DS × String :=
       else
         let (s2, rb) := doTx d.env s1 (ledgerH d) (arg 1)
         ({ d with s := s2 }, ra.toString ++ "," ++ rb.toString)
+    | "race3" =>
+      -- DoTx(a) in flight (its locks held, nothing written) while the others are submitted one after the other: one that
+      -- shares a lock key with a (one of the two wanting it exclusively) is refused by the lock protocol and changes
+      -- nothing; every other one is decided as if submitted after a (the ones finished before it included)
+      let a := arg 0
+      let (s1, ra) := doTx d.env d.s (ledgerH d) a
+      let (s', rs) := ((pos.drop 1).filterMap String.toNat?).foldl (fun (acc : St × List String) t =>
+        if ra == .ok && lockConflict (d.env.tx a) (d.env.tx t) then (acc.1, acc.2 ++ ["lock"])
+        else
+          let (s2, r) := doTx d.env acc.1 (ledgerH d) t
+          (s2, acc.2 ++ [r.toString])) (s1, [])
+      ({ d with s := s' }, String.intercalate "," (ra.toString :: rs))
+    | "flood" =>
+      -- pairwise independent submissions in flight together: any one-at-a-time order gives the listed one's answers
+      let (s', rs) := ((splitList (pos[0]?.getD "")).filterMap String.toNat?).foldl (fun (acc : St × List String) t =>
+        let (s2, r) := doTx d.env acc.1 (ledgerH d) t
+        (s2, acc.2 ++ [r.toString])) (d.s, [])
+      ({ d with s := s' }, String.intercalate "," rs)
     | "balrace" =>
       -- pre=<t>: an admission before the racing pair
       match (getKV kv "pre").toNat? with
